@@ -22,10 +22,12 @@
        every alternative winner (C04_algo_empty_iff: `out = [] <-> possible = false`, both directions; with
        C04_in_particular this covers "whenever the reported winner is not the unique possible IRV winner").
        So the whole of C04 is proved about the model, for every run that does not exhaust its fuel.
-   NOT proved about the model: that the default fuel always suffices (termination), and optimality (C15); the fuel
-   is checked on every run (exhaustion is reported as a disagreement), optimality per output by the verified `opt`
+   TERMINATION is proved too (C04_algo_terminates: with at least two candidates some fuel suffices and every larger fuel
+   gives the same result; C04_algo_total_correct puts everything together).  NOT proved: that the particular constant
+   RaireAlgo.default_fuel (200 n! + 200) used by the correspondence is such a fuel — exhaustion is reported as a
+   disagreement on every run.  Optimality of the model is PC15.v C15_algo_optimal
    (harness/c04.py, c15.py; DESIGN section 4 table, row C04/C15). *)
-From SV Require Import RaireCheck RaireCheck_proofs RaireAlgo RaireAlgo_proofs RaireAlgo_inv RaireAlgo_complete.
+From SV Require Import RaireCheck RaireCheck_proofs RaireAlgo RaireAlgo_proofs RaireAlgo_inv RaireAlgo_complete RaireAlgo_opt RaireAlgo_fuel RaireAlgo_term.
 Open Scope nat_scope.
 
 (* the tree-based decision procedure is exact: true iff EVERY complete order ending in another candidate is
@@ -108,6 +110,28 @@ Theorem C04_algo_output_true :
     forallb (rep_ok cands p) (map fst out) = true.
 Proof. exact raire_model_output_true_partial. Qed.
 Print Assumptions C04_algo_output_true.
+
+(* termination, and the summary statement *)
+Theorem C04_algo_terminates :
+  forall dfun cands p tot winner hint,
+    NoDup cands -> 2 <= length cands ->
+    exists fuel out, forall fuel', fuel <= fuel' -> raire fuel' dfun cands p tot winner hint = Some out.
+Proof. exact raire_terminates. Qed.
+Print Assumptions C04_algo_terminates.
+
+Theorem C04_algo_total_correct :
+  forall dfun cands p tot winner hint,
+    NoDup cands -> 2 <= length cands -> dfun_lb dfun tot ->
+    exists fuel out,
+      (forall fuel', fuel <= fuel' -> raire fuel' dfun cands p tot winner hint = Some out) /\
+      (out = [] <-> possible cands p winner = false) /\
+      (out <> [] ->
+         check_output cands p winner (map fst out) = true /\
+         exists d, opt dfun cands p tot winner = Val d /\
+                   (forall a tw tl q, In (a, tw, tl, q) out -> (q <= d)%Q) /\
+                   (exists a tw tl q, In (a, tw, tl, q) out /\ (d <= q)%Q)).
+Proof. exact raire_total_correct. Qed.
+Print Assumptions C04_algo_total_correct.
 
 (* ---- non-vacuity: concrete inputs satisfying the hypotheses *)
 Definition ex_cands : list cand := [0; 1; 2].
